@@ -28,6 +28,7 @@ inline void print_byte(std::ostream& out, uint8_t x)
         case 9: out << "\\t"; return;
         case 10: out << "\\n"; return;
         case 13: out << "\\r"; return;
+        case 39: out << "\\'"; return;
         case 92: out << "\\\\"; return;
     }
     if ((x >= 32) && (x <= 126))
@@ -36,10 +37,13 @@ inline void print_byte(std::ostream& out, uint8_t x)
     }
     else
     {
+        const std::ios_base::fmtflags flags = out.flags();
+        const char fill = out.fill('0');
         out << "\\x";
         out.width(2);
-        out.fill('0');
         out << std::hex << unsigned(x);
+        out.flags(flags);
+        out.fill(fill);
     }
 }
 
